@@ -208,16 +208,16 @@ def p_c02(run):
     cfgs = ("native", "w32", "neutral") if run.tier == "quick" else tuple(C.CONFIGS)
     kernel_tie(run, ("native", "w32", "neutral") if run.tier == "quick" else ("native", "w32", "neutral", "neutral32"))
     import whole as W
-    if run.tier == "quick": whole_tie(run, ("native", "w32", "neutral"), W.QUICK_MBLK)
-    else: whole_tie(run, ("native", "w32", "noua", "neutral", "neutral32"), W.MBLK_PARTS)
+    if run.tier == "quick": whole_tie(run, ("native", "w32", "neutral"), W.QUICK_MBLK + W.QUICK_MKEY)
+    else: whole_tie(run, ("native", "w32", "noua", "neutral", "neutral32"), W.MBLK_PARTS + W.MKEY_PARTS)
     run_scripts(run, G.gen_c02(run.rng, run.tier), std_variants(run, cfgs))
 def p_c03(run):
     cfgs = ("native", "nosimd32", "noua") if run.tier == "quick" else ("native", "w32", "noua", "w32noua", "nosimd", "nosimd32", "neutral")
     vs = std_variants(run, cfgs)
     kernel_tie(run, ("native", "w32") if run.tier == "quick" else ("native", "w32", "neutral", "neutral32"))
     import whole as W
-    if run.tier == "quick": whole_tie(run, ("native", "w32"), [p_ for p_ in W.QUICK_BLK if "dec" in p_] + W.QUICK_MBLK[1:3])
-    else: whole_tie(run, ("native", "w32", "neutral", "neutral32"), [p_ for p_ in W.BLK_PARTS if "dec" in p_] + W.MBLK_PARTS)
+    if run.tier == "quick": whole_tie(run, ("native", "w32"), [p_ for p_ in W.QUICK_BLK if "dec" in p_] + W.QUICK_MBLK[1:3] + ["mkey_setkey_6_0", "mkey_swap"])
+    else: whole_tie(run, ("native", "w32", "neutral", "neutral32"), [p_ for p_ in W.BLK_PARTS if "dec" in p_] + W.MBLK_PARTS + [p_ for p_ in W.MKEY_PARTS if "setkey_" in p_ or "swap" in p_])
     for title, script, meta in G.gen_c03(run.rng, run.tier):
         for v in vs:
             for be in (("def", "v128", "v256") if v.has128 else ("def",)):
@@ -325,7 +325,8 @@ def p_c10(run):
     import whole as W
     q = run.tier == "quick"
     whole_tie(run, ("native", "w32") if q else ("native", "w32", "neutral", "neutral32"),
-              [p_ for p_ in W.key_parts("128", q) + W.key_parts("64", q) if "_st_" not in p_])
+              [p_ for p_ in W.key_parts("128", q) + W.key_parts("64", q) if "_st_" not in p_] +
+              [p_ for p_ in (W.QUICK_MKEY if q else W.MKEY_PARTS) if "setkey" in p_])
     run_scripts(run, G.gen_c10(run.rng, run.tier), vs)
 
 def p_c13(run):
